@@ -19,7 +19,6 @@ import (
 	"strconv"
 	"strings"
 	"testing"
-	"time"
 
 	"github.com/go-spatial/geom"
 	"github.com/pdok/texel/internal/gpkgh"
@@ -756,12 +755,17 @@ func TestVerifGpkgsim(t *testing.T) {
 	defer out.Close()
 	runLog := simh.NewRunLog(job.Out + ".log")
 	log.SetOutput(runLog)
+	// all simulated runs of this process in ONE bubble (see simh.InBubble)
+	simh.InBubble(t, func() { gpkgsimMain(t, job, out, runLog) })
+}
+
+func gpkgsimMain(t *testing.T, job *simh.Job, out *simh.Out, runLog *simh.RunLog) {
 	switch job.Mode {
 	case "explore", "selftest":
 		sum := simh.NewSummary("gpkgsim", job.Mode, job.SeedLo)
 		digests := simh.NewDigestSet(2000000)
 		dl := simh.NewDeadline(job.BudgetS)
-		t0 := time.Now()
+		t0 := simh.RealNow()
 		for seed := job.SeedLo; seed < job.SeedHi; seed++ {
 			if dl.Expired() {
 				break
@@ -822,7 +826,7 @@ func TestVerifGpkgsim(t *testing.T) {
 		}
 		simh.WriteDigests(job.Out+".digests", digests.Slice())
 		sum.DigestsTotal = int64(digests.Len())
-		sum.WallS = time.Since(t0).Seconds()
+		sum.WallS = simh.RealNow().Sub(t0).Seconds()
 		out.Line(sum)
 	case "candidates":
 		for i, raw := range job.Candidates {
